@@ -164,6 +164,8 @@ def gen_packages(run, n):
         pkg["select"] = sel
         pkg["rounds"] = 2 if (sel == "list" and run.rng.random() < 0.2) else 1
         ctoracc.add_groups(run.rng, pkg)
+        if sel != "list":
+            pkg["order"] = ctoracc.decl_order(pkg)   # a grouped declaration moves its structs together (textual order)
         finish(pkg, classes, fatal)
     return pkgs, stats
 
@@ -709,6 +711,8 @@ def replay(run, path):
     pkg = ctoracc.spec_from_json(r["spec"])
     pkg["groups"] = r["spec"].get("groups") or []
     pkg["order"] = r["order"]
+    if (pkg.get("select") or "list") != "list":
+        pkg["order"] = ctoracc.decl_order(pkg)       # the tool picks the types: textual declaration order of the source
     pkg["rounds"] = r["rounds"]
     obs, mod = observe(run, shoot, accbin, "c03mod", [pkg])
     pkgdefs, rendered = render_cases([pkg], obs)
